@@ -52,7 +52,7 @@ func (g *Gen) ClosureProgram() *Chunk {
 
 	nscen := 2 + g.R.Intn(5)
 	for s := 0; s < nscen; s++ {
-		kind := g.R.Intn(18)
+		kind := g.R.Intn(21)
 		g.cover("exit:%d", kind)
 		v := g.fresh("x")
 		getter := func(name string) Expr { return Fn(nil, false, Blk(Return(N(name)))) }
@@ -192,6 +192,46 @@ func (g *Gen) ClosureProgram() *Chunk {
 				&SLabel{Name: done},
 			)})
 			g.cover("exit:capture-behind-forward-goto")
+		case 18: // a forward goto (continue idiom) leaves a nested block whose own local is captured; the label's block captures nothing
+			lbl := g.fresh("Lcont")
+			iv := g.fresh("i")
+			var nested Stmt
+			inner := Blk(Local1(v, Bin("*", N(iv), Num(10))), push(bump(v)),
+				&SIf{Conds: []Expr{Bin(">=", N(iv), Num(1))}, Blocks: []*Block{Blk(&SGoto{Label: lbl})}},
+				CallSN("emit", Str("not-reached"), N(v)))
+			switch g.R.Intn(3) {
+			case 0:
+				nested = &SDo{Body: inner}
+			case 1:
+				nested = &SIf{Conds: []Expr{&ETrue{}}, Blocks: []*Block{inner}}
+			default:
+				nested = &SNumFor{Var: g.fresh("j"), Start: Num(1), Limit: Num(1), Body: inner}
+			}
+			b.Stmts = append(b.Stmts, &SNumFor{Var: iv, Start: Num(1), Limit: Num(3), Body: Blk(nested, &SLabel{Name: lbl})})
+			g.cover("exit:forward-goto-out-of-capturing-block")
+		case 19: // assignments through open upvalues across coroutines: a coroutine writes its creator's live local, outside code writes a suspended coroutine's local
+			y, setter := g.fresh("y"), g.fresh("setter")
+			b.Stmts = append(b.Stmts,
+				Local1(v, Num(1)), &SLocal{Names: []string{setter}},
+				Local1(y, Call(Dot(N("coroutine"), "wrap"), Fn(nil, false, Blk(
+					Assign1(N(v), Bin("+", N(v), Num(10))), // the creator's local, still open
+					Local1("own", Num(5)),
+					Assign1(N(setter), Fn([]string{"n"}, false, Blk(Assign1(N("own"), N("n")), Return(N("own"))))),
+					&SCall{Call: Call(Dot(N("coroutine"), "yield"), N("own"))},
+					Assign1(N(v), Bin("+", N(v), Num(100))),
+					Return(N("own"), N(v)))))),
+				CallSN("emit", Str("co-wrote-creator-local"), Call(N(y)), N(v)),
+				CallSN("emit", Str("outside-wrote-co-local"), Call(N(setter), Num(77))),
+				CallSN("emit", Str("co-sees"), Call(N(y)), N(v)),
+				push(getter(v)))
+			g.cover("exit:cross-coroutine-upvalue-writes")
+		case 20: // while: a fresh body local per iteration
+			c := g.fresh("c")
+			b.Stmts = append(b.Stmts, Local1(c, Num(0)), &SWhile{Cond: Bin("<", N(c), Num(3)), Body: Blk(
+				Assign1(N(c), Bin("+", N(c), Num(1))),
+				Local1(v, Bin("*", N(c), Num(10))),
+				push(bump(v)), push(getter(v)))})
+			g.cover("exit:while-per-iteration")
 		case 3: // goto out of nested blocks holding captured locals
 			lbl := g.fresh("Lout")
 			iv := g.fresh("i")
@@ -270,7 +310,12 @@ func (g *Gen) ClosureProgram() *Chunk {
 					&SCall{Call: Call(Dot(N("coroutine"), "yield"), N(v))},
 					Assign1(N(v), Bin("+", N(v), Num(100))),
 					func() Stmt {
-						switch g.R.Intn(5) {
+						switch g.R.Intn(6) {
+						case 5:
+							// the coroutine dies by a fault raised by an instruction of the very
+							// function whose local is captured
+							g.cover("exit:coroutine-dies-by-instruction-fault")
+							return Local1(g.fresh("z"), Bin("+", &ENil{}, N(v)))
 						case 0, 1:
 							return CallSN("error", Str("Eco"))
 						case 2:
